@@ -481,8 +481,12 @@ impl<'a> Driver<'a> {
             let client_gone = cs.client_rst;
 
             if let Some(dead) = cs.dead_from {
-                if f.end > dead && !(f.class == FrameClass::HeaderInvalid && f.start + 24 <= dead) && !matches {
-                    // its last byte never reached the server
+                if f.end > dead && !matches {
+                    // its last byte never reached the server; if its header did and
+                    // announces something unacceptable, that is what justified the close
+                    if f.start + 24 <= dead && matches!(f.class, FrameClass::HeaderInvalid | FrameClass::UnknownOp | FrameClass::BodyInvalid | FrameClass::ShapeOdd) {
+                        self.conns[c].close_checked = true;
+                    }
                     self.drop_rest(c);
                     break;
                 }
@@ -524,7 +528,9 @@ impl<'a> Driver<'a> {
                         self.resolve(c, Resolution::Answered, Some(r));
                         continue;
                     }
-                    if closed {
+                    if closed && next_resp.is_none() {
+                        // refusing an invalid frame by closing is legitimate
+                        self.conns[c].close_checked = true;
                         self.drop_rest(c);
                         break;
                     }
@@ -604,18 +610,21 @@ impl<'a> Driver<'a> {
                         self.resolve(c, Resolution::Answered, Some(r));
                         continue;
                     }
-                    if closed {
+                    if closed && next_resp.is_none() {
+                        // the connection was closed at this frame (or at a later
+                        // one after this one had been passed silently)
                         if f.class == FrameClass::Unimplemented && !self.close_is_legit(c) && !info.quiet {
                             self.viol("C12", "known-opcode-unanswered", format!("c{}: request #{} of known opcode {:#04x} got no response (connection closed)", c, f.sym_index, f.req.opcode));
                             self.conns[c].close_checked = true;
                         }
                         if f.class == FrameClass::ShapeOdd {
                             self.conns[c].close_checked = true;
+                            self.mark_unknown_effects(&f);
                         }
                         self.drop_rest(c);
                         break;
                     }
-                    if pending_ok {
+                    if pending_ok && next_resp.is_none() {
                         break;
                     }
                     let quiet_like = info.quiet || matches!(f.req.opcode, 0x1e | 0x24);
